@@ -407,8 +407,11 @@ def _late(rng, tier):
 
 
 def cases(rng, tier):
-    for _ in range(4 if tier == "quick" else 40):
-        yield _late(rng, tier)
+    for j in range(4 if tier == "quick" else 40):
+        c = _late(rng, tier)
+        if j < 3:     # seed_v = 0 / True and seed = 0: k_v must still be 10^-(a + c·xi_v) of the seeded xi_v
+            c["seed_v"], c["seed"] = [(0, 11), (True, 0), (0, 0)][j]
+        yield c
     ns, nr, nf = (40, 16, 2) if tier == "quick" else (900, 300, 6)
     for _ in range(ns):
         yield _case(rng, tier)
